@@ -423,6 +423,30 @@ def _probe_thunks():
         for cls, seq in (("triple", S3), ("quad", S4), ("graph", S4)):
             yield f"{api}-{cls}", ser(api, cls, seq)
             yield f"{api}-{cls}-parse", par(api, cls, seq)
+    def ns_parse(api):
+        def thunk():
+            # a stream with declarations, written by the reference encoder, read into a sink/graph
+            from mc import jrefenc  # noqa: PLC0415
+            from mc.explore import choice  # noqa: PLC0415
+
+            data, _, _ = jrefenc.encode(choice.Chooser([]), S3[:2], 1, (8, 3, 1),
+                                        namespaces=[("pp", "http://a/"), ("", "urn:x")],
+                                        features=frozenset())
+            evs = (DR.g_read if api == "generic" else DR.r_read)(data, "to_graph")
+            if api == "rdflib":
+                evs = sorted(evs, key=repr)
+            return hashlib.sha256(repr(evs).encode()).hexdigest()
+        return thunk
+
+    def empty_sink():
+        from pyjelly.integrations.generic import generic_sink as gs  # noqa: PLC0415
+
+        sink = gs.GenericStatementSink()
+        return hashlib.sha256(repr((list(sink.namespaces), len(list(sink)))).encode()).hexdigest()
+
+    yield "generic-empty-sink", empty_sink
+    for api in ("generic", "rdflib"):
+        yield f"{api}-ns-parse", ns_parse(api)
     for api in ("generic", "rdflib"):
         yield f"{api}-named", named(api)
     for api in ("generic", "rdflib"):
@@ -481,7 +505,49 @@ def history_actions() -> dict:
                 pass
         return act
 
+    def ns_grouped(api):
+        """Two containers with the same bindings through one grouped stream, declarations on
+        (the second round declares IRIs whose entries are already in the tables); the result
+        is parsed back into sinks/graphs, which receive the bindings."""
+        def act():
+            from mc.checks import c14  # noqa: PLC0415
+
+            binds = [("h1", "http://a/"), ("h2", "http://hist/ns#"), ("h3", "http://a/")]
+            opts = DR.make_options("triple", (8, 3, 1), 250, True, 3, generalized=False,
+                                   rdf_star=False, ns=True)
+            out = io.BytesIO()
+            if api == "generic":
+                from pyjelly.integrations.generic import serialize as ser  # noqa: PLC0415
+
+                items = [DR.g_sink([st], binds) for st in S3B[:2]]
+            else:
+                from pyjelly.integrations.rdflib import serialize as ser  # noqa: PLC0415
+
+                items = [c14.r_source("triple", [st], binds) for st in S3B[:2]]
+            ser.grouped_stream_to_file((x for x in items), out, options=opts)
+            (DR.g_read if api == "generic" else DR.r_read)(out.getvalue(), "grouped")
+            (DR.g_read if api == "generic" else DR.r_read)(out.getvalue(), "to_graph")
+        return act
+
+    def ns_manual(api):
+        """namespace_declaration() called by hand between statements, for an IRI in use."""
+        def act():
+            opts = DR.make_options("triple", (8, 3, 1), 250, True, generalized=False,
+                                   rdf_star=False, ns=True)
+            stream = (DR.g_stream if api == "generic" else DR.r_stream)("triple", opts)
+            stream.enroll()
+            conv = T.st_to_generic if api == "generic" else T.st_to_rdflib
+            stream.triple(conv(S3B[0]))
+            stream.namespace_declaration("m", S3B[0][0][1])
+            stream.triple(conv(S3B[1]))
+            stream.flow.to_stream_frame()
+        return act
+
     return {
+        "ns-grouped-generic": ns_grouped("generic"),
+        "ns-grouped-rdflib": ns_grouped("rdflib"),
+        "ns-manual-generic": ns_manual("generic"),
+        "ns-manual-rdflib": ns_manual("rdflib"),
         "named-generic": named("generic"),
         "named-rdflib": named("rdflib"),
         "abandon-generic-triple": abandon("generic", "triple", S3B),
